@@ -65,6 +65,7 @@ type FnCtx struct {
 	initGhosts map[string]*Term
 	errGlobals []string
 	unrollTop  bool
+	usesPtrTag bool
 }
 
 // ghostInit returns the initial (function entry) value of ghost variable name.
@@ -432,6 +433,52 @@ func (fc *FnCtx) merge(states []*State, conds []*Term) *State {
 // oblige records a proof obligation: under st.reach, goal must hold. Afterwards the goal is assumed
 // (assert-then-assume) so that one failure does not cascade.
 func (fc *FnCtx) oblige(st *State, kind, path string, goal *Term, pos token.Position, desc string) *Obligation {
+	if kind == "post" || kind == "inv-entry" || kind == "inv-preserve" || kind == "pre" {
+		if parts := splitGoal(goal); len(parts) > 1 {
+			var last *Obligation
+			for _, p := range parts {
+				last = fc.oblige1(st, kind, path, p, pos, desc)
+			}
+			return last
+		}
+	}
+	return fc.oblige1(st, kind, path, goal, pos, desc)
+}
+
+// splitGoal splits (and A B ..) and (=> P (and A B ..)) into separate goals (better diagnostics, smaller queries).
+func splitGoal(goal *Term) []*Term {
+	if !strings.HasPrefix(goal.S, "(and ") && !strings.HasPrefix(goal.S, "(=> ") {
+		return nil
+	}
+	n := parseSx(goal.S)
+	var out []*Term
+	var rec func(n *sx, hyps []string)
+	rec = func(n *sx, hyps []string) {
+		switch n.head() {
+		case "and":
+			for _, k := range n.kids[1:] {
+				rec(k, hyps)
+			}
+			return
+		case "=>":
+			if len(n.kids) == 3 {
+				rec(n.kids[2], append(append([]string{}, hyps...), n.kids[1].src))
+				return
+			}
+		}
+		t := n.src
+		if len(hyps) == 1 {
+			t = "(=> " + hyps[0] + " " + t + ")"
+		} else if len(hyps) > 1 {
+			t = "(=> (and " + strings.Join(hyps, " ") + ") " + t + ")"
+		}
+		out = append(out, mk(SBool, t))
+	}
+	rec(n, nil)
+	return out
+}
+
+func (fc *FnCtx) oblige1(st *State, kind, path string, goal *Term, pos token.Position, desc string) *Obligation {
 	key := path + kind
 	fc.kindCount[key]++
 	name := fmt.Sprintf("%s/%s%s#%d", fc.key, path, kind, fc.kindCount[key])
